@@ -354,6 +354,46 @@ func equalObject(left, right Object) bool {
 		return false
 	}
 
+	return sameValue(left, right)
+}
+
+// sameValue compares two objects of the same type: the members of a binary
+// set are compared regardless of their order, at any depth of a document
+func sameValue(left, right Object) bool {
+	switch l := left.(type) {
+	case *BinarySet:
+		r, ok := right.(*BinarySet)
+
+		return ok && len(l.Value) == len(r.Value) && len(removeBinaries(l.Value, r.Value)) == 0 && len(removeBinaries(r.Value, l.Value)) == 0
+	case *List:
+		r, ok := right.(*List)
+		if !ok || len(l.Value) != len(r.Value) {
+			return false
+		}
+
+		for i := range l.Value {
+			if !sameValue(l.Value[i], r.Value[i]) {
+				return false
+			}
+		}
+
+		return true
+	case *Map:
+		r, ok := right.(*Map)
+		if !ok || len(l.Value) != len(r.Value) {
+			return false
+		}
+
+		for k, lv := range l.Value {
+			rv, found := r.Value[k]
+			if !found || !sameValue(lv, rv) {
+				return false
+			}
+		}
+
+		return true
+	}
+
 	return reflect.DeepEqual(left, right)
 }
 
